@@ -114,14 +114,21 @@ def gen_cases(tier, rng):
             per_use = [G.spell(rng, [u], args, True) for u in parts[0]]
             words[0] = [w for pu in per_use for w in pu]
             cur = []
+            hash_line = False
             for pu in per_use:
                 cur += pu
                 if rng.chance(1, 2):
-                    lines.append(' '.join(esc(w) for w in cur)); cur = []
+                    real = ' '.join(esc(w) for w in cur)
+                    hash_line = hash_line or real.startswith('#')
+                    lines.append(real); cur = []
                     if rng.chance(1, 3):
                         lines.append(rng.choice(['', '# comment -x', '#']))
             if cur:
-                lines.append(' '.join(esc(w) for w in cur))
+                real = ' '.join(esc(w) for w in cur)
+                hash_line = hash_line or real.startswith('#')
+                lines.append(real)
+            if hash_line:
+                continue      # an argument line that starts with '#' is a comment by definition
             content = '\n'.join(lines) + ('\n' if rng.chance(2, 3) else '')
             extra.append('file:' + A.hx(content))
         if parts[1] or rng.chance(1, 3):
@@ -131,7 +138,7 @@ def gen_cases(tier, rng):
             continue      # an empty word cannot be delivered through a string
         exp = G.expected_store(args, uses)
         # override: a scalar from file/env given again on argv
-        over = [u for u in parts[0] + parts[1] if u.arg.kind in ('i', 's') and not u.arg.checks]
+        over = [u for u in parts[0] + parts[1] if u.arg.kind in ('i', 's') and not u.arg.checks and not u.arg.positional]
         kind = 'sources'
         if over and rng.chance(1, 3):
             u = rng.choice(over)
